@@ -535,6 +535,12 @@ def glob_scenarios(tier, first_sid, rnd):
             out.append({"nodes": nodes, "follow": False, "min": -1, "max": -1, "glob": C.cps(g), "rooted": True, "rooted_variant": True,
                         "walk_from": index["root"], "base": "abs", "layers": [], "tree": tname, "skip_trace": True,
                         "desc": "rooted glob /?<abs>/%s over tree %s (first component a pattern)" % (g, tname)})
+        # rooted through a repetition (</verif:1,2>/...): the glob has a root although its first token is a branch; the
+        # walk starts at the root of the file system and cannot prune by component, so the harness confines it
+        for g in (("**/*.txt", "a/**", "*") if tname == "plain" else ("**/g", "a/b/**")):
+            out.append({"nodes": nodes, "follow": False, "min": -1, "max": -1, "glob": C.cps(g), "rooted": True, "rooted_rep": True, "confine": True,
+                        "walk_from": index["root"], "base": "abs", "layers": [], "tree": tname, "skip_trace": True,
+                        "desc": "rooted glob </first:1,2>/<rest of abs>/%s over tree %s (rooted through a repetition)" % (g, tname)})
         # a base inside the tree, and prefixes with . and ..
         for g, base in (("**", "root/a"), ("*/*", "root/a"), ("b/**", "root/a"), ("./a/**", "root"), ("../root/a/**", "root"),
                         ("../b/**", "root/a"), ("a/../b/**", "root"), ("./**", "root"), ("../**", "root/a")):
